@@ -66,6 +66,7 @@ static const char *err_class(const char *m)
   if (strstr(m, "Not a PPM/PGM")) return "NOTPPM";
   if (strstr(m, "Maximum supported image dimension")) return "TOOBIG";
   if (strstr(m, "Bogus input colorspace")) return "BADCS";
+  if (strstr(m, "Unsupported JPEG data precision")) return "BADPREC";
   if (strstr(m, "no data") || strstr(m, "Could not read input file")) return "EMPTY";
   if (strstr(m, "Unsupported file type")) return "UNSUPPORTED";
   if (strstr(m, "Memory allocation failure") || strstr(m, "Insufficient memory")) return "NOMEM";
